@@ -443,6 +443,106 @@ def while_body(loop):
     return loop
 
 
+def range_of(it):
+    """(lo, hi, inclusive(0/1), reversed) of an iterated range `lo..hi` / `lo..=hi`, optionally `.rev()`; None for another shape"""
+    it = nf.strip_casts(it)
+    rev = False
+    while it["k"] == "MethodCall" and it["name"] in ("rev", "into_iter") and not it["args"]:
+        rev = rev != (it["name"] == "rev")
+        it = nf.strip_casts(it["recv"])
+    if it["k"] == "Struct" and it.get("res", {}).get("path") == "std::ops::Range":
+        f = {x["name"]: x["e"] for x in it["fields"]}
+        return f["start"], f["end"], 0, rev
+    if it["k"] == "Call" and short(it.get("callee", "")) == "new" and "RangeInclusive" in it.get("callee", "") and len(it["args"]) == 2:
+        return it["args"][0], it["args"][1], 1, rev
+    return None
+
+
+def counted_loop(fn, loop):
+    """A loop whose iteration number t = 0, 1, .. determines a counter: {var: local name, lid, value(node) -> rational function of
+    '#t' = the counter's value where `node` reads it, count: number of iterations when no other exit is taken, step: the stepping
+    statement or None}. Recognised: `for v in lo..hi | lo..=hi [.rev()]`, and `let mut c = INIT; while c > 0 | c != 0 | c >= 1
+    { ..; c -= 1; .. }` / `while c < N | c != N { ..; c += 1; .. }` where the step is the only write to c, a top-level statement
+    of the body with no `continue` before it. None otherwise."""
+    from . import ratfn
+    t = tree_of(fn)
+    R = resolver_of(fn)
+    T = (ratfn.p_atom("#t"), ratfn.ONE)
+
+    def add(a, b, sign=1):
+        return (ratfn.p_add(ratfn.p_mul(a[0], b[1]), ratfn.p_mul(b[0], a[1]), sign), ratfn.p_mul(a[1], b[1]))
+    one = (ratfn.ONE, ratfn.ONE)
+    for fl in for_loops(fn):
+        if fl["loop"] is loop:
+            rg = range_of(fl["iter"])
+            if rg is None or fl["pat"].get("k") != "Bind":
+                return None
+            lo, hi, incl, rev = rg
+            rl, rh = ratfn.rat(lo, R), ratfn.rat(hi, R)
+            cnt = add(add(rh, rl, -1), (ratfn.p_const(incl), ratfn.ONE))
+            if not rev:
+                v = add(rl, T)
+            else:
+                v = add(add(rh, (ratfn.p_const(1 - incl), ratfn.ONE), -1), T, -1)
+            return {"var": fl["pat"]["name"], "lid": fl["pat"]["id"], "value": (lambda node, v=v: v), "count": cnt, "step": None, "body": fl["body"]}
+    if loop["k"] != "Loop" or loop.get("src") != "While":
+        return None
+    b = loop["body"]
+    first = b.get("expr") if not b["stmts"] else None
+    if first is None or first["k"] != "If":
+        return None
+    c = nf.strip(first["c"])
+    if c["k"] != "Binary" or c["op"] not in ("<", ">", "!=", ">=", "<="):
+        return None
+    l_, r_ = nf.strip_casts(c["l"]), nf.strip_casts(c["r"])
+    op = c["op"]
+    if not (l_["k"] == "Path" and "local" in l_["res"]):
+        l_, r_ = r_, l_
+        op = {"<": ">", ">": "<", ">=": "<=", "<=": ">=", "!=": "!="}[op]
+    if not (l_["k"] == "Path" and "local" in l_["res"]):
+        return None
+    lid, name = l_["res"]["local"], l_["res"]["name"]
+    lets = [x for x in user_nodes(fn) if x["k"] == "Let" and x["pat"].get("k") == "Bind" and x["pat"]["id"] == lid and "init" in x]
+    if len(lets) != 1 or t.contains(loop, lets[0]):
+        return None
+    ws = [x for x in user_nodes(fn) if x["k"] in ("Assign", "AssignOp") and nf._place(x["l"]) == ("local", lid)]
+    if len(ws) != 1 or not t.contains(first["t"], ws[0]):
+        return None
+    w = ws[0]
+    step = None
+    if w["k"] == "AssignOp" and w["op"] in ("+=", "-=") and nf.nf(w["r"], True) == "1":
+        step = 1 if w["op"] == "+=" else -1
+    elif w["k"] == "Assign":
+        rr = ratfn.rat(w["r"], None)
+        for sg in (1, -1):
+            if ratfn.equal(rr, add((ratfn.p_atom(name), ratfn.ONE), one, sg)):
+                step = sg
+    if step is None:
+        return None
+    body = first["t"]
+    top = body["stmts"] + ([body["expr"]] if "expr" in body else [])
+    idx = [i for i, s_ in enumerate(top) if s_ is w]
+    if not idx or any(t._has_continue(s_) for s_ in top[:idx[0]]):
+        return None
+    init = ratfn.rat(lets[0]["init"], R)
+    bound = ratfn.rat(r_, R)
+    zero = (ratfn.ZERO, ratfn.ONE)
+    if step == -1 and ((op in (">", "!=") and ratfn.equal(bound, zero)) or (op == ">=" and ratfn.equal(bound, one))):
+        cnt = init
+    elif step == 1 and op in ("<", "!="):
+        cnt = add(bound, init, -1)
+    elif step == 1 and op == "<=":
+        cnt = add(add(bound, init, -1), one)
+    else:
+        return None
+    v0 = add(init, T, step)                         # before the step statement
+    v1 = add(v0, one, step)                         # after it
+
+    def value(node, w=w, v0=v0, v1=v1):
+        return v1 if (before(fn, w, node) and not t.contains(w, node)) else v0
+    return {"var": name, "lid": lid, "value": value, "count": cnt, "step": w, "body": body, "guard": first["c"]}
+
+
 # ---------------------------------------------------------------------------------- ALIAS
 
 ALIAS_RULE = ("the register fields whose writes the guard rules judge are mutated, outside constructors and resets, only by plain "
